@@ -18,15 +18,22 @@
 (* applied blocks and links said and whatever the process has logged in earlier calls (OutputIgnoresLog, GenWritesWhateverLogged). *)
 (* Deviation "errGate": the output is put in place only "if no error came up", decided by the process-wide error count - the run   *)
 (* that logs an [ error ] message and EVERY later run of the process leave their path as it was (no file / the stale one).         *)
+(*   lib, env the ENVIRONMENT of the process: lib[p] = the lines of a file of the same name p in another directory (a library        *)
+(*            directory, where an earlier polymer.itp was parked: gen_params -o <library>/p), env = the directories the include   *)
+(*            search path of the environment lists (GMXLIB): <<>> or <<"lib">>; it changes between two operations (SetEnv).       *)
+(* A topology in the run directory that #includes p reads the file NEXT TO IT: what the search path lists and what other          *)
+(* directories hold does not matter (ReadIsCurrent quantifies over these histories too).  Deviation "searchPathLastWins": the     *)
+(* include is looked up in the directory of the topology and then in the listed directories, and the last hit is taken.           *)
 EXTENDS ItpRoundTripExport
 CONSTANTS Paths, MaxOps, HDev,
+          WithEnv,    \* TRUE: histories also write same-named files into the library directory and change the search path
           WithFF,     \* TRUE: histories also read through from_itp into one long-lived force field (ReadFF)
           MolIdx,     \* the molecules (indices into HistMols) the instance generates
           MsgKinds,   \* the message sections the generating force field may carry: records [lv, on], lv = level ("none": no message
                       \* section), on = what carries it ("block": the residue blocks, "link": a link that is applied)
           MaxMsgs     \* bound of the instance: at most so many runs of a history use a force field with a message section
-VARIABLES fs, at, cache, obs, nops, hist, ffb, plog
-hvars == <<fs, at, cache, obs, nops, hist, ffb, plog>>
+VARIABLES fs, at, cache, obs, nops, hist, ffb, plog, lib, env
+hvars == <<fs, at, cache, obs, nops, hist, ffb, plog, lib, env>>
 
 L1 == <<(<<1>>), (<<"A">>)>>
 L2 == <<(<<1, 2>>), (<<"A", "A">>)>>
@@ -54,7 +61,7 @@ NoLog == [v \in Levels |-> 0]
 Bump(lg, lv) == IF lv \in Levels THEN [lg EXCEPT ![lv] = @ + 1] ELSE lg
 HInit == /\ Frozen /\ fs = [p \in Paths |-> <<>>] /\ at = [p \in Paths |-> 0] /\ cache = [p \in Paths |-> <<>>] /\ obs = NoObs
          /\ ffb \in (IF WithFF THEN {NoBlock, LibBlock} ELSE {NoBlock})
-         /\ plog = NoLog
+         /\ plog = NoLog /\ lib = [p \in Paths |-> <<>>] /\ env = <<>>
          /\ nops = 0 /\ hist = <<[op |-> "init", path |-> IF ffb.has THEN "lib" ELSE "fresh", m |-> 0, lv |-> "none", on |-> ""]>>
 \* one call of gen_params in the process: force field whose applied blocks / links carry the message k, molecule i, output path p.
 \* The run passes mapping and link application (every molecule of the instance does): the messages are logged - the process state
@@ -67,28 +74,42 @@ Gen(p, i, k) ==
        /\ fs' = IF held THEN fs
                 ELSE [fs EXCEPT ![p] = IF HDev = "writerAppends" THEN @ \o Write(HistMols[i]) ELSE Write(HistMols[i])]
        /\ plog' = IF held THEN Bump(logged, "error") ELSE logged   \* the complaint about the withheld file is an error message too
-       /\ at' = [at EXCEPT ![p] = i] /\ obs' = NoObs /\ UNCHANGED <<cache, ffb>>
+       /\ at' = [at EXCEPT ![p] = i] /\ obs' = NoObs /\ UNCHANGED <<cache, ffb, lib, env>>
        /\ nops' = nops + 1 /\ hist' = Append(hist, [op |-> "gen", path |-> p, m |-> i, lv |-> k.lv, on |-> k.on])
+\* gen_params -o <library directory>/p: a file of the same name in another directory (nothing in the run directory changes)
+GenLib(p, i) == /\ WithEnv /\ nops < MaxOps
+                /\ lib' = [lib EXCEPT ![p] = Write(HistMols[i])]
+                /\ UNCHANGED <<fs, at, cache, obs, ffb, plog, env>>
+                /\ nops' = nops + 1 /\ hist' = Append(hist, [op |-> "genlib", path |-> p, m |-> i, lv |-> "none", on |-> ""])
+\* the environment changes: the include search path lists the library directory / lists nothing
+SetEnv(e) == /\ WithEnv /\ nops < MaxOps /\ e # env
+             /\ env' = e /\ UNCHANGED <<fs, at, cache, obs, ffb, plog, lib>>
+             /\ nops' = nops + 1 /\ hist' = Append(hist, [op |-> "setenv", path |-> IF e = <<>> THEN "none" ELSE "lib", m |-> 0, lv |-> "none", on |-> ""])
+\* the file an #include of p in the run directory's topology resolves to
+Included(p) == IF HDev = "searchPathLastWins" /\ env # <<>> /\ lib[p] # <<>> THEN lib[p] ELSE fs[p]
 ReadTop(p) == /\ nops < MaxOps /\ at[p] # 0
-              /\ LET content == IF HDev = "readerCaches" /\ cache[p] # <<>> THEN cache[p] ELSE fs[p] IN
+              /\ LET content == IF HDev = "readerCaches" /\ cache[p] # <<>> THEN cache[p] ELSE Included(p) IN
                    /\ obs' = [valid |-> TRUE, path |-> p, res |-> Read(content)]
                    /\ cache' = [cache EXCEPT ![p] = content]
-              /\ UNCHANGED <<fs, at, ffb, plog>>
+              /\ UNCHANGED <<fs, at, ffb, plog, lib, env>>
               /\ nops' = nops + 1 /\ hist' = Append(hist, [op |-> "read", path |-> p, m |-> at[p], lv |-> "none", on |-> ""])
 \* MetaMolecule.from_itp(force_field, file of p, name) with the one force field of the process: the block of that name is replaced
 ReadFF(p) == /\ WithFF /\ nops < MaxOps /\ at[p] # 0
              /\ LET res == IF HDev = "readerReusesBlock" /\ ffb.has THEN ffb.res ELSE Read(fs[p]) IN
                   /\ obs' = [valid |-> TRUE, path |-> p, res |-> res]
                   /\ ffb' = [has |-> TRUE, res |-> res]
-             /\ UNCHANGED <<fs, at, cache, plog>>
+             /\ UNCHANGED <<fs, at, cache, plog, lib, env>>
              /\ nops' = nops + 1 /\ hist' = Append(hist, [op |-> "readff", path |-> p, m |-> at[p], lv |-> "none", on |-> ""])
-HNext == /\ (\E p \in Paths : (\E i \in MolIdx, k \in MsgKinds : Gen(p, i, k)) \/ ReadTop(p) \/ ReadFF(p))
+HNext == /\ \/ (\E p \in Paths : (\E i \in MolIdx, k \in MsgKinds : Gen(p, i, k)) \/ ReadTop(p) \/ ReadFF(p) \/ (\E i \in MolIdx : GenLib(p, i)))
+            \/ (\E e \in {<<>>, <<"lib">>} : SetEnv(e))
          /\ UNCHANGED vars
 \* every read returns the molecule the path holds now, and nothing but the current content decides it
 ReadIsCurrent == obs.valid => /\ obs.res.ok /\ Same(obs.res, Project(HistMols[at[obs.path]]))
                               /\ obs.res = Read(fs[obs.path])
 \* a path holds exactly what was last written to it; other paths are untouched
 FsHoldsWrite == \A p \in Paths : IF at[p] = 0 THEN fs[p] = <<>> ELSE fs[p] = Write(HistMols[at[p]])
+\* the run directory is untouched by what happens in the library directory and in the environment
+EnvLeavesRunDirectory == [][hist'[Len(hist')].op \in {"genlib", "setenv"} => fs' = fs /\ at' = at /\ obs' = obs]_hvars
 OnlyWritesChangeFiles == [][\A p \in Paths : fs'[p] # fs[p] => (hist'[Len(hist')].op = "gen" /\ hist'[Len(hist')].path = p)]_hvars
 \* ---- messages.  The operations of the process with their messages erased decide what every path holds: the content of p is what the
 \* LAST run with output path p wrote - irrespective of the message sections of that run's force field and of any earlier run's
@@ -110,6 +131,7 @@ OnlyRunsLog == [][plog' # plog => hist'[Len(hist')].op = "gen"]_hvars
 ASSUME PrintT(<<"HMOLS", ToJson([i \in 1..NMols |-> CaseOf(HistMols[i])])>>)
 HistExport == (nops = MaxOps /\ hist[Len(hist)].op \in {"read", "readff"}) => PrintT(<<"HIST", ToJson(hist)>>)
 MCPaths == {"X", "Y"}
+MCPathOne == {"X"}
 MCMolAll == 1..NMols
 MCMolTwo == {2, 3}
 MCMsgNone == {NoMsg}
